@@ -645,6 +645,13 @@ json execute(Nav& nav, Proto& a, Op const& o)
         throw std::runtime_error("unknown op " + o.e);
     }
     nav.observe(r);
+    if (nav.geo().lattice)
+    {
+        // a history ends when the navigator's own answers lead out of the closed world box
+        for (int k = 0; k < 3; ++k)
+            if (a.pos[k] < nav.geo().lo[k] || a.pos[k] > nav.geo().hi[k])
+                a.ph = 'O';
+    }
     return r;
 }
 
@@ -770,6 +777,11 @@ struct Explorer
                 execute(nav, b, ops[oi]);
                 if (index.find(b.key()) == index.end())
                 {
+                    if (static_cast<long>(nodes.size()) * 8 > maxcalls)
+                    {
+                        truncated = true;
+                        continue;
+                    }
                     index[b.key()] = nodes.size();
                     nodes.push_back(Node{b, nav.save(), nodes[ni].depth + 1, {}});
                     nodes[ni].kids.push_back({oi, nodes.size() - 1});
